@@ -26,6 +26,10 @@ func (h *Hash) Evaluation(
 
 	newHash := base.MakeAnyHash()
 
+	// a diagnostic in a value is reported after the literal has been read to
+	// its `}`: left behind, the `}` would close an enclosing block
+	var valueErr error
+
 	for {
 		p.SkipNewline()
 
@@ -68,7 +72,11 @@ func (h *Hash) Evaluation(
 		err = e.EvalExpr(p, ctx, nextT, 0)
 		zaorik()
 		if err != nil {
-			return err
+			if valueErr == nil {
+				valueErr = err
+			}
+
+			continue
 		}
 
 		valueT := p.GetLastEvaluatedT()
@@ -78,5 +86,5 @@ func (h *Hash) Evaluation(
 
 	p.SetLastEvaluatedT(newHash)
 
-	return nil
+	return valueErr
 }
